@@ -206,6 +206,7 @@ def run(ctx):
     run_histories(ctx, m)
     run_overlapping(ctx, m)
     run_django_config(ctx, m)
+    run_flask_config(ctx, m)
 
 
 TRANSPORT = "neutral"
@@ -318,6 +319,48 @@ def run_histories(ctx, m):
             check_cell(ctx, m, grant, gen, sup, cs, req, rng.choice(["a b", "a b c d"]) if grant == "refresh" else None, "form", shared)
 
 
+def run_flask_config(ctx, m):
+    """The Flask provider reads its supported scopes from OAUTH2_SCOPES_SUPPORTED in the application's configuration (init_app);
+    same forms, same expectation as for the Django setting."""
+    import flask
+    from authlib.integrations.flask_oauth2 import AuthorizationServer as FlaskAS
+    from impl import transports as T
+    sup = ["a", "b", "c"]
+    forms = {"list": list(sup), "tuple": tuple(sup), "set": set(sup), "frozenset": frozenset(sup), "dict": {k: k.upper() for k in sup},
+             "dict-keys": {k: 1 for k in sup}.keys(), "absent": None}
+    for fname, cfg in forms.items():
+        for requested in (None, "a", "a b", "a z", "z", "d", "c b a"):
+            store = S.Store()
+            store.clients["c1"] = S.Client("c1", "sec", ["https://client.example/cb"], "a b c d z", ALL_GRANT_TYPES, ["code"], "client_secret_basic")
+            app = flask.Flask("verif-c08-%s" % fname)
+            if cfg is not None:
+                app.config["OAUTH2_SCOPES_SUPPORTED"] = cfg
+
+            def save_token(token, request, store=store):
+                store.tokens.append(S.Token(request.client.client_id, None, **token))
+            server = FlaskAS(app, query_client=lambda cid, store=store: store.clients.get(cid), save_token=save_token)
+            server.register_grant(S.make_grants(store)["client_credentials"])
+            form = {"grant_type": "client_credentials"}
+            if requested is not None:
+                form["scope"] = requested
+            try:
+                with app.test_request_context("/token", base_url="https://as.example", method="POST", data=form, headers=S.basic_header("c1", "sec")):
+                    resp = server.create_token_response()
+                    got = outcome(T._read_back(resp.status_code, resp.get_data(), list(resp.headers.items())), "bearer")
+            except Exception as e:  # noqa: BLE001
+                got = ["escapes", type(e).__name__]
+            a = {"grant": "client_credentials", "generator": "bearer", "supported": [] if cfg is None else sup, "client_scope": "a b c d z", "requested": requested, "original": None}
+            mod = m.call("issue", a)
+            case = dict(a, flask_config=fname)
+            ctx.case(case, ("flask-config", fname, requested), "flask-config:%s:%s" % (fname, got[0]))
+            ctx.compare("issue", case, got, mod)
+            if got[0] == "escapes":
+                ctx.violation("C08:flask-config:escapes:%s" % got[1], "the Flask provider raised on a token request", case)
+            if got[0] == "issued" and cfg is not None and not set((got[1] or "").split()) <= set(sup):
+                ctx.violation("C08:flask-config:unsupported-scope-issued:%s" % fname, "a scope outside the deployment's supported scopes (given as %s in the "
+                              "Flask configuration) was issued" % fname, dict(case, got=got))
+
+
 def run_django_config(ctx, m):
     """The Django provider reads its supported scopes from the AUTHLIB_OAUTH2_PROVIDER setting; whatever collection the deployment
     wrote there (list, tuple, set, frozenset, a dict of scope -> description), an unsupported scope is refused and a supported one
@@ -358,6 +401,8 @@ def run_django_config(ctx, m):
 def run_case(ctx, case):
     if "django_config" in case:
         return run_django_config(ctx, ctx.model)
+    if "flask_config" in case:
+        return run_flask_config(ctx, ctx.model)
     got = run_flow(case["grant"], case["generator"], case["supported"], case["client_scope"], case["requested"], case["original"],
                    case.get("placement", "form"))
     if got[0] == "issued":
